@@ -29,7 +29,8 @@ MANIFEST = {
     "technique": "Lean 4 proof (invariant over the token stream, all block capacities) + metamorphic differential runs of the real tool",
 }
 
-REQUIRED = ["KV.C07.count_block_indep", "KV.C07.lmplz_indep"]
+REQUIRED = ["KV.C07.count_block_indep", "KV.C07.lmplz_indep",
+            "KV.C07.collapse_partition_indep", "KV.C07.prune_partition_indep"]
 
 OKISH = ("ok", "config")
 
